@@ -34,7 +34,11 @@ Runs == { ms \in UNION {[1..k -> Masks] : k \in 1..MaxBatches} :
             /\ Count(ms) >= N
             /\ Count(SubSeq(ms, 1, Len(ms) - 1)) < N }
 
-Case(ms) == [masks |-> ms, batches |-> Len(ms), kept |-> SubSeq(Collect(ms, 1), 1, N),
+\* how an invalid draw shows: the prior is "finite" or it is not - zero prior (-inf), an undefined
+\* prior (NaN, e.g. -log(sigma) at sigma < 0) and +inf are all rejected
+InvalidKind(b, i) == <<"minf", "nan", "pinf", "nan">>[((b + i) % 4) + 1]
+Case(ms) == [invalid_kind |-> [b \in 1..Len(ms) |-> [i \in 1..N |-> InvalidKind(b, i)]],
+             masks |-> ms, batches |-> Len(ms), kept |-> SubSeq(Collect(ms, 1), 1, N),
              prior_calls |-> Len(ms), proposal_calls |-> Len(ms), likelihood_calls |-> 1, likelihood_points |-> N]
 Cases == {Case(ms) : ms \in Runs}
 
